@@ -55,6 +55,8 @@ inductive Entry
   | none                              -- no entity file: `EntityWithName` fails
   | noKey                             -- entity without public key
   | key (pk : Nat)                    -- long-term public key of key pair `pk`
+  | badKey                            -- a public key that is not 32 bytes long (`/pairings` add stores any length): no
+                                      -- signature verifies under it — and a check that panics on it must not verify either
   | own (pk : Nat)                    -- an entity that also holds a PRIVATE key: the accessory's own identity, which
                                       -- lives in the same database — not a controller (F16 repair)
 deriving DecidableEq, Repr
@@ -119,6 +121,7 @@ def stepR (fixed renew : Bool) (c : Nat) (db : Store) (st : St) : In → St × O
           | .none => (st0, .http500)
           | .noKey => (st0, .http500)
           | .own _ => (st0, .http500)
+          | .badKey => (st0, .tlv 4 (some 4) false false)
           | .key pk =>
             if sigOk c st name pk sig then
               ({ st0 with installed := some st.other, instEpoch := st.epoch }, .tlv 4 none false false)
